@@ -303,6 +303,37 @@ impl TransactionTracker {
         }
     }
 
+    // Verification hook: a read-only copy of the tracker's bookkeeping
+    #[cfg(redb_verif)]
+    pub(crate) fn verif_snapshot(&self) -> crate::db::VerifTrackerSnapshot {
+        let state = self.state.lock().unwrap();
+        crate::db::VerifTrackerSnapshot {
+            live_read_transactions: state
+                .live_read_transactions
+                .iter()
+                .map(|(id, count)| (id.raw_id(), *count))
+                .collect(),
+            live_write_transaction: state.live_write_transaction.map(TransactionId::raw_id),
+            next_transaction_id: state.next_transaction_id.raw_id(),
+            valid_savepoints: state
+                .valid_savepoints
+                .iter()
+                .map(|(id, txn)| (id.0, txn.raw_id()))
+                .collect(),
+            persistent_savepoints: state.persistent_savepoints.iter().map(|id| id.0).collect(),
+            pending_non_durable_commits: state
+                .pending_non_durable_commits
+                .iter()
+                .map(|(id, ancestor)| (id.raw_id(), ancestor.raw_id()))
+                .collect(),
+            unprocessed_freed_non_durable_commits: state
+                .unprocessed_freed_non_durable_commits
+                .iter()
+                .map(|id| id.raw_id())
+                .collect(),
+        }
+    }
+
     pub(crate) fn any_savepoint_exists(&self) -> bool {
         !self.state.lock().unwrap().valid_savepoints.is_empty()
     }
